@@ -154,6 +154,60 @@ theorem C14_whole_life_roundtrip (parse : Bytes → Option Uuid) (ops : List HOp
   have e := restart_identity C14_field_names _ hr.wf
   exact ⟨e, by simp only [hstep, e], by simp only [hstep, e]⟩
 
+
+/-- whether an answer says that a save of the state was scheduled -/
+def _root_.Hap.PairState.HAns.savedFlag : HAns → Bool
+  | .resp _ wr => wr
+  | .verified _ wr => wr
+  | .saved wr => wr
+  | .restarted _ => false
+
+/-- Every change reaches the file: in every world the invariant describes — hence at every point of every
+    whole-life history, in particular in the second and every later run of a driver object that was stopped and
+    started again — an operation that changes ANYTHING of the persisted state (a pairing, a permission byte, an
+    identifier spelling, a back-filled identifier, the configuration number, the hash) schedules a save. (A
+    restart and a stop change nothing persisted.) Together with `C14_whole_life_roundtrip`: the file of the
+    last completed save loads to the current state. -/
+theorem C14_every_change_is_saved (parse : Bytes → Option Uuid) (w : World) (a : Abs) (who : Who)
+    (h : HRel parse w a who) (op : HOp) (hch : (hstep parse w op).1.acc ≠ w.acc) :
+    (hstep parse w op).2.savedFlag = true := by
+  have hal := rel_aligned h.rel
+  cases op with
+  | s sop =>
+    cases sop with
+    | setup idb key =>
+      rcases step_cases parse w.acc.ps (.setup idb key) hal with ⟨resp, e⟩ | ⟨_, _, _, s', _, e⟩ | ⟨u, pc, _, _, e⟩
+      · exfalso; apply hch; simp only [hstep, e]
+      · simp only [hstep, e, HAns.savedFlag]
+      · simp only [hstep, e, HAns.savedFlag]
+    | req c body =>
+      rcases step_cases parse w.acc.ps (.req ⟨w.ss c, body⟩) hal with ⟨resp, e⟩ | ⟨_, _, _, s', _, e⟩ | ⟨u, pc, _, _, e⟩
+      · exfalso; apply hch; simp only [step] at e; simp only [hstep, e]
+      · simp only [step] at e; simp only [hstep, e, HAns.savedFlag]
+      · simp only [step] at e; simp only [hstep, e, HAns.savedFlag]
+    | verify c v =>
+      simp only [hstep] at hch ⊢
+      cases hv : verifiesAs parse w.acc.ps v with
+      | none => rw [hv] at hch; exact absurd rfl hch
+      | some p =>
+        obtain ⟨u, idb⟩ := p
+        rw [hv] at hch
+        simp only [HAns.savedFlag]
+        unfold backfill at hch ⊢
+        split
+        · rfl
+        · next hb => exfalso; apply hch; simp only [hb]
+  | config => rfl
+  | hsh hh =>
+    simp only [hstep, setAccessoriesHash] at hch ⊢
+    by_cases he : w.acc.accessoriesHash = hh
+    · simp only [he, if_true] at hch; exact absurd rfl hch
+    · simp only [he, if_false, HAns.savedFlag]
+  | restart =>
+    exfalso; apply hch
+    simp only [hstep, restart_identity C14_field_names w.acc h.wf]
+  | stop => exact absurd rfl hch
+
 /-- a configuration number in range -/
 def CvInRange (a : AccState) : Prop := 1 ≤ a.configVersion ∧ a.configVersion ≤ MAXCV
 
@@ -181,6 +235,7 @@ theorem C14_config_version_in_range (parse : Bytes → Option Uuid) (ops : List 
       · exact hcv
       · exact hinc _ hcv
     | restart => simp only [hstep, restart_identity C14_field_names w.acc h.wf]; exact hcv
+    | stop => exact hcv
 
 /-- Behaviour after a restart: on the reloaded state the list-pairings answer, the admin test, the
     long-term key looked up by pair-verify, the outcome of EVERY pair-verify exchange and the answer to EVERY
